@@ -3,6 +3,7 @@
 //! Panics of the implementation are an output (`PANIC <class>`), not a crash of the harness.
 mod fam_constr;
 mod fam_feat;
+mod fam_geom;
 mod fam_nms;
 mod fam_vote;
 mod wire;
@@ -28,6 +29,8 @@ fn exec(ctx: &mut Ctx, line: &str) -> String {
         "constr" => fam_constr::exec(ctx, &mut t),
         "vote" => fam_vote::exec(ctx, &mut t),
         "feat" => fam_feat::exec(ctx, &mut t),
+        "box" => fam_geom::exec_box(ctx, &mut t),
+        "geom" => fam_geom::exec_geom(ctx, &mut t),
         _ => format!("UNKNOWN-FAMILY {fam}"),
     }
 }
